@@ -283,7 +283,8 @@ class Ctx:
         else:
             rec.update(status='unknown', backend=backend, ms=ms, detail=rec.get('detail', 'solver returned unknown'))
         self.obls.append(rec)
-        self.s.add(g)       # continue under the goal
+        if r != z3.sat:
+            self.s.add(g)       # continue under a goal that holds (or is undecided); never assume a refuted one
         return r == z3.unsat
 
     def cover(self, cid):
